@@ -20,7 +20,7 @@ import (
 type BuildOpts struct {
 	Payload  int  // bytes of L4 payload
 	HBH, E2E bool // extension headers in front of the L4 header
-	Stale    int  // EPIC, when not fresh: 0 = too old, 1 = in the future
+	Stale    int  // EPIC, when not fresh: 0 = 4 s old, 1 = 15 s ahead, 2 = 60 s old, 3 = 60 s ahead
 	Rng      *rand.Rand
 }
 
@@ -245,10 +245,9 @@ func (e *Env) Build(a *APkt, o BuildOpts, now time.Time) ([]byte, error) {
 			}
 			sender := now.Add(-time.Second)
 			if !a.Ep.Fresh {
-				sender = now.Add(-60 * time.Second)
-				if o.Stale == 1 {
-					sender = now.Add(60 * time.Second)
-				}
+				// too old: a stall between building and processing only makes it older, so the
+				// margin to the 3 s bound can be small; in the future: keep a wide margin
+				sender = now.Add([]time.Duration{-4, 15, -60, 60}[o.Stale%4] * time.Second)
 			}
 			ts0 := d.InfoFields[0].Timestamp
 			ets := uint32(sender.Sub(time.Unix(int64(ts0), 0))/(21*time.Microsecond)) - 1
